@@ -5,8 +5,9 @@ import DepsDev.Proofs.C15ApiView
 
 The exclusions attribute is the `|`-joined list of `group:artifact` of the exclusions that
 contain no pipe; splitting it at `|` and each segment at its first colon gives those exclusions
-back (as `viewExcl` sees them) — unless no exclusion survives the pipe filter: then the attribute
-is the empty string, whose only segment has no colon, and the Go code slices with a bound of -1.
+back (as `viewExcl` sees them). When no exclusion survives the pipe filter the attribute is the
+empty string, whose only segment is empty and is skipped; a non-empty segment without a colon is
+the error `invalid Maven dep.Type`; the slice expressions never go out of range.
 -/
 namespace DepsDev.Proofs.C15ApiType
 open DepsDev DepsDev.Model.Maven DepsDev.Model.Maven.Api DepsDev.Proofs.C15ApiView
@@ -124,37 +125,109 @@ theorem cutColon_none_iff (s : Bytes) : cutColon s = none ↔ cColon ∉ s := by
         have : ¬ cColon ∉ rest := fun hn => by rw [ih.2 hn] at h; cases h
         simp [hc, this]
 
-theorem parseExclusions_map (l : List Exclusion) : parseExclusions (l.map seg) = some (l.map viewExcl) := by
+/-- `strings.Index` and `strings.Cut` find the same colon -/
+theorem indexColon_of_cut (s : Bytes) :
+    match cutColon s with
+    | none => indexColon s = none
+    | some (g, a) => indexColon s = some g.length ∧ s = g ++ cColon :: a := by
+  induction s with
+  | nil => simp [cutColon, indexColon]
+  | cons c rest ih =>
+    unfold cutColon indexColon
+    by_cases hc : c = cColon
+    · simp [hc]
+    · cases h : cutColon rest with
+      | none => simp only [h] at ih; simp [hc, ih]
+      | some p =>
+        obtain ⟨g, a⟩ := p
+        simp only [h] at ih
+        simp [hc, ih.1]
+        exact ih.2
+
+/-- the slices around the first colon are within bounds and are the two parts -/
+theorem slice_ok (g a : Bytes) : sliceAround (g ++ cColon :: a) g.length = some (g, a) := by
+  simp [sliceAround]
+
+theorem parse_step (sg : Bytes) (g a : Bytes) (rest : List Bytes) (h : cutColon sg = some (g, a)) :
+    parseExclusions (sg :: rest) =
+      match parseExclusions rest with
+      | .ok l => .ok (⟨g, a⟩ :: l)
+      | .err => .err
+      | .panic => .panic := by
+  have hi := indexColon_of_cut sg
+  simp only [h] at hi
+  obtain ⟨hi1, hi2⟩ := hi
+  have hne : sg.isEmpty = false := by rw [hi2]; simp
+  rw [parseExclusions]
+  simp only [hne, Bool.false_eq_true, if_false, hi1]
+  have : sliceAround sg g.length = some (g, a) := by
+    conv => lhs; rw [hi2]
+    exact slice_ok g a
+  simp only [this]
+  cases parseExclusions rest <;> rfl
+
+theorem parse_step_bad (sg : Bytes) (rest : List Bytes) (hne : sg ≠ []) (h : cutColon sg = none) :
+    parseExclusions (sg :: rest) = .err := by
+  have hi := indexColon_of_cut sg
+  simp only [h] at hi
+  have : sg.isEmpty = false := by simpa using hne
+  rw [parseExclusions]
+  simp [this, hi]
+
+theorem parse_step_empty (rest : List Bytes) : parseExclusions ([] :: rest) = parseExclusions rest := by
+  rw [parseExclusions]; simp
+
+theorem parseExclusions_map (l : List Exclusion) : parseExclusions (l.map seg) = .ok (l.map viewExcl) := by
   induction l with
   | nil => rfl
   | cons e rest ih =>
     obtain ⟨g', a', h⟩ := cutColon_apiName e.g e.a
-    simp [parseExclusions, seg, viewExcl, h, ih]
+    simp only [List.map_cons]
+    rw [parse_step (seg e) g' a' _ h, ih]
+    simp [viewExcl, h]
 
-theorem parseExclusions_none_iff (l : List Bytes) : parseExclusions l = none ↔ ∃ s ∈ l, cColon ∉ s := by
+/-- the exclusions loop never slices out of range -/
+theorem parseExclusions_no_panic (l : List Bytes) : parseExclusions l ≠ .panic := by
   induction l with
   | nil => simp [parseExclusions]
-  | cons s rest ih =>
-    unfold parseExclusions
-    cases hc : cutColon s with
-    | none => simp [(cutColon_none_iff s).1 hc]
-    | some p =>
-      have hs : ¬ cColon ∉ s := fun hn => by rw [(cutColon_none_iff s).2 hn] at hc; cases hc
-      cases hr : parseExclusions rest with
+  | cons sg rest ih =>
+    by_cases hne : sg = []
+    · subst hne; rw [parse_step_empty]; exact ih
+    · cases h : cutColon sg with
+      | none => rw [parse_step_bad sg rest hne h]; simp
+      | some p =>
+        obtain ⟨g, a⟩ := p
+        rw [parse_step sg g a rest h]
+        cases hr : parseExclusions rest with
+        | ok l => simp
+        | err => simp
+        | panic => exact absurd hr ih
+
+/-- it returns the error exactly when some non-empty segment has no colon -/
+theorem parseExclusions_err_iff (l : List Bytes) : parseExclusions l = .err ↔ ∃ s ∈ l, s ≠ [] ∧ cColon ∉ s := by
+  induction l with
+  | nil => simp [parseExclusions]
+  | cons sg rest ih =>
+    by_cases hne : sg = []
+    · subst hne; rw [parse_step_empty, ih]; simp
+    · cases h : cutColon sg with
       | none =>
-        obtain ⟨x, hx, hxc⟩ := ih.1 hr
-        simp only [List.mem_cons, exists_eq_or_imp, true_iff]
-        exact Or.inr ⟨x, hx, hxc⟩
-      | some l' =>
-        have : ¬ ∃ x ∈ rest, cColon ∉ x := fun he => by rw [ih.2 he] at hr; cases hr
-        simp only [List.mem_cons, exists_eq_or_imp, reduceCtorEq, false_iff, not_or]
-        exact ⟨hs, this⟩
+        rw [parse_step_bad sg rest hne h]
+        simp only [true_iff]
+        exact ⟨sg, by simp, hne, (cutColon_none_iff sg).1 h⟩
+      | some p =>
+        obtain ⟨g, a⟩ := p
+        have hc : ¬ cColon ∉ sg := fun hn => by rw [(cutColon_none_iff sg).2 hn] at h; cases h
+        rw [parse_step sg g a rest h]
+        simp only [List.mem_cons, exists_eq_or_imp, hc, and_false, false_or]
+        rw [← ih]
+        cases parseExclusions rest <;> simp
 
 /-! ## the round trip -/
 
 /-- what `MavenDepTypeToDependency` gives back of a dependency: no coordinates, the defaults
-(`jar`, `compile`, not optional) as empty strings, the exclusions without a pipe, each split at
-its first colon -/
+(`jar`, `compile`, not optional) as empty strings, the exclusions without a pipe (those with one
+are dropped by `ExclusionsString`), each split at its first colon -/
 def normalise (d : Dep) : Dep :=
   { g := [], a := [], v := []
     typ := if !d.typ.isEmpty && d.typ != bJar then d.typ else []
@@ -163,27 +236,13 @@ def normalise (d : Dep) : Dep :=
     opt := if d.opt == bTrue then bTrue else []
     excl := (kept d.excl).map viewExcl }
 
-/-- the dependency has no exclusions, or one that `ExclusionsString` does not skip -/
-def SomeExclusionSurvives (d : Dep) : Prop := d.excl = [] ∨ kept d.excl ≠ []
-
-instance (d : Dep) : Decidable (SomeExclusionSurvives d) := by unfold SomeExclusionSurvives; infer_instance
-
-/-- every `|`-separated segment of the exclusions attribute has a colon -/
-def SegmentsHaveColon (t : DType) : Prop :=
-  match t.excl with
-  | none => True
-  | some e => ∀ s ∈ splitPipe e, cColon ∈ s
-
-theorem exclusions_back (ex : List Exclusion) (h : kept ex ≠ []) :
-    parseExclusions (splitPipe (exclusionsString ex)) = some ((kept ex).map viewExcl) := by
+theorem exclusions_back (ex : List Exclusion) :
+    parseExclusions (splitPipe (exclusionsString ex)) = .ok ((kept ex).map viewExcl) := by
   unfold exclusionsString
-  rw [exclusionsLoop_true, splitPipe_joinSegs _ (by simpa using h) (kept_noPipe ex), parseExclusions_map]
-
-theorem exclusions_panic (ex : List Exclusion) (h : kept ex = []) :
-    parseExclusions (splitPipe (exclusionsString ex)) = none := by
-  unfold exclusionsString
-  rw [exclusionsLoop_true, h]
-  rfl
+  rw [exclusionsLoop_true]
+  by_cases h : kept ex = []
+  · rw [h]; simp [joinSegs, splitPipe, parse_step_empty, parseExclusions]
+  · rw [splitPipe_joinSegs _ (by simpa using h) (kept_noPipe ex), parseExclusions_map]
 
 theorem scope_back (d : Dep) (origin : Bytes) : backScope (mavenDepType d origin) = some (normalise d).scope := by
   unfold backScope mavenDepType normalise
@@ -192,11 +251,6 @@ theorem scope_back (d : Dep) (origin : Bytes) : backScope (mavenDepType d origin
   · by_cases h2 : (!d.scope.isEmpty && d.scope != bCompile) = true
     · simp [h1, h2]
     · simp [h1, h2]
-
-theorem orEmpty_guard (c : Bool) (s : Bytes) (h : c = false → s = []) : orEmpty (if c = true then some s else none) = s := by
-  cases c
-  · simp [orEmpty, h rfl]
-  · simp [orEmpty]
 
 theorem typ_back (d : Dep) (origin : Bytes) : orEmpty (mavenDepType d origin).typ = (normalise d).typ := by
   unfold mavenDepType normalise
@@ -210,95 +264,57 @@ theorem origin_back (d : Dep) (origin : Bytes) : orEmpty (mavenDepType d origin)
   unfold mavenDepType
   cases origin <;> simp [orEmpty]
 
-/-- **Round trip.** `MavenDepTypeToDependency (MavenDepType d origin)` is the normalised dependency and
-the origin, for every dependency that has no exclusions or at least one without a pipe. -/
-theorem depType_roundtrip (d : Dep) (origin : Bytes) (h : SomeExclusionSurvives d) :
+/-- **Round trip**, for every dependency and every origin. -/
+theorem depType_roundtrip (d : Dep) (origin : Bytes) :
     mavenDepTypeToDependency (mavenDepType d origin) = .ok (normalise d, origin) := by
-  have hex : backExclusions (mavenDepType d origin) = some ((kept d.excl).map viewExcl) := by
+  have hex : backExclusions (mavenDepType d origin) = .ok ((kept d.excl).map viewExcl) := by
     unfold backExclusions mavenDepType
-    rcases h with h | h
+    by_cases h : d.excl = []
     · simp [h, kept]
-    · have hne : d.excl ≠ [] := fun e => h (by simp [e, kept])
-      have : d.excl.isEmpty = false := by simpa using hne
+    · have : d.excl.isEmpty = false := by simpa using h
       simp only [this, Bool.not_false, if_true]
-      exact exclusions_back d.excl h
+      exact exclusions_back d.excl
   unfold mavenDepTypeToDependency
   simp only [scope_back, hex, typ_back, cls_back, origin_back]
   simp [normalise, mavenDepType]
 
-/-- …and it panics on every other dependency: one that has exclusions all of which contain a pipe. -/
-theorem depType_panics (d : Dep) (origin : Bytes) (h : ¬ SomeExclusionSurvives d) :
-    mavenDepTypeToDependency (mavenDepType d origin) = .panic := by
-  simp only [SomeExclusionSurvives, not_or, Decidable.not_not] at h
-  have hne : d.excl.isEmpty = false := by simpa using h.1
-  have hex : backExclusions (mavenDepType d origin) = none := by
-    unfold backExclusions mavenDepType
-    simp only [hne, Bool.not_false, if_true]
-    exact exclusions_panic d.excl h.2
-  unfold mavenDepTypeToDependency
-  simp only [scope_back, hex]
-
-/-- on the types `MavenDepType` produces, the hypothesis of the totality theorem is the hypothesis
-of the round trip -/
-theorem segments_of_depType (d : Dep) (origin : Bytes) :
-    SegmentsHaveColon (mavenDepType d origin) ↔ SomeExclusionSurvives d := by
-  unfold SegmentsHaveColon mavenDepType SomeExclusionSurvives
-  by_cases he : d.excl = []
-  · simp [he]
-  · have hne : d.excl.isEmpty = false := by simpa using he
-    simp only [hne, Bool.not_false, if_true, he, false_or]
-    constructor
-    · intro h hk
-      have := h [] (by unfold exclusionsString; rw [exclusionsLoop_true, hk]; simp [joinSegs, splitPipe])
-      simp at this
-    · intro hk s hs
-      unfold exclusionsString at hs
-      rw [exclusionsLoop_true, splitPipe_joinSegs _ (by simpa using hk) (kept_noPipe d.excl)] at hs
-      obtain ⟨e, _, rfl⟩ := List.mem_map.1 hs
-      simp [seg, apiName]
-
-/-- **Totality of `MavenDepTypeToDependency`, partial.** It never panics on a type whose exclusion
-segments all have a colon… -/
-theorem typeToDependency_no_panic (t : DType) (h : SegmentsHaveColon t) : mavenDepTypeToDependency t ≠ .panic := by
-  have hex : backExclusions t ≠ none := by
-    unfold SegmentsHaveColon at h
+/-- **`MavenDepTypeToDependency` never panics**, for every Maven dep.Type. -/
+theorem typeToDependency_no_panic (t : DType) : mavenDepTypeToDependency t ≠ .panic := by
+  have hex : backExclusions t ≠ .panic := by
     unfold backExclusions
-    cases he : t.excl with
+    cases t.excl with
     | none => simp
-    | some e =>
-      simp only [he] at h
-      intro hn
-      obtain ⟨s, hs, hsc⟩ := (parseExclusions_none_iff _).1 hn
-      exact hsc (h s hs)
+    | some e => exact parseExclusions_no_panic _
   unfold mavenDepTypeToDependency
   cases backScope t with
   | none => simp
   | some sc =>
     cases hb : backExclusions t with
-    | none => exact absurd hb hex
-    | some ex => simp
+    | panic => exact absurd hb hex
+    | err => simp
+    | ok ex => simp
 
-/-- …and panics on every other type, unless it is rejected first (`Test` together with `Scope`). -/
-theorem typeToDependency_panics (t : DType) (h : ¬ SegmentsHaveColon t) (hs : t.scope = none ∨ t.test = false) :
-    mavenDepTypeToDependency t = .panic := by
-  have hex : backExclusions t = none := by
-    unfold SegmentsHaveColon at h
-    unfold backExclusions
-    cases he : t.excl with
-    | none => simp [he] at h
-    | some e =>
-      simp only [he] at h
-      apply (parseExclusions_none_iff _).2
-      simp only [Classical.not_forall] at h
-      obtain ⟨s, hs, hc⟩ := h
-      exact ⟨s, hs, hc⟩
-  have hsc : ∃ x, backScope t = some x := by
+/-- It returns the error exactly for Test together with Scope, or an exclusions attribute with a non-empty
+segment that has no colon. -/
+theorem typeToDependency_err_iff (t : DType) :
+    mavenDepTypeToDependency t = .err ↔
+      (t.test = true ∧ t.scope ≠ none) ∨ ∃ e, t.excl = some e ∧ ∃ s ∈ splitPipe e, s ≠ [] ∧ cColon ∉ s := by
+  have hsc : backScope t = none ↔ (t.test = true ∧ t.scope ≠ none) := by
     unfold backScope
-    rcases hs with hs | hs
-    · simp [hs]
-    · cases t.scope <;> simp [hs]
-  obtain ⟨x, hx⟩ := hsc
+    cases t.scope with
+    | none => simp
+    | some s => cases t.test <;> simp [bTest]
+  have hex : backExclusions t = .err ↔ ∃ e, t.excl = some e ∧ ∃ s ∈ splitPipe e, s ≠ [] ∧ cColon ∉ s := by
+    unfold backExclusions
+    cases t.excl with
+    | none => simp
+    | some e => simp [parseExclusions_err_iff]
   unfold mavenDepTypeToDependency
-  simp [hx, hex]
+  cases hb : backScope t with
+  | none => simp [hsc.1 hb]
+  | some sc =>
+    have hn : ¬ (t.test = true ∧ t.scope ≠ none) := fun h => by rw [hsc.2 h] at hb; cases hb
+    simp only [hn, false_or, ← hex]
+    cases backExclusions t <;> simp
 
 end DepsDev.Proofs.C15ApiType
